@@ -307,73 +307,91 @@ func appProxyCases(c *drv.Ctx) {
 	}
 	os.Unsetenv("NO_PROXY")
 	os.Unsetenv("no_proxy")
-	for _, which := range []string{"elastic", "docker"} {
-		for _, proto := range []string{"http", "https"} {
-			args := []string{"--proto", proto, "-t", "400ms", "--exit-delay", "20ms", "-p", "9200", "-w", "1", "198.51.100.7"}
-			lg := &appCapLogger{}
-			ctx, cancel := context.WithCancel(context.Background())
-			var engine scan.EngineResulter
-			var r *scan.Range
-			var err error
-			switch which {
-			case "elastic":
-				cm := newElasticCmd()
-				cm.cmd.SetOut(io.Discard)
-				cm.cmd.SetErr(io.Discard)
-				if err = cm.cmd.ParseFlags(args); err == nil {
-					if err = cm.opts.parseRawOptions(); err == nil {
-						if r, err = cm.opts.parseScanRange(cm.cmd.Flags().Args()); err == nil {
-							engine = cm.opts.newElasticScanEngine(ctx)
-						}
-					}
-				}
-			case "docker":
-				cm := newDockerCmd()
-				cm.cmd.SetOut(io.Discard)
-				cm.cmd.SetErr(io.Discard)
-				if err = cm.cmd.ParseFlags(args); err == nil {
-					if err = cm.opts.parseRawOptions(); err == nil {
-						if r, err = cm.opts.parseScanRange(cm.cmd.Flags().Args()); err == nil {
-							engine = cm.opts.newDockerScanEngine(ctx)
-						}
-					}
-				}
+	// what the docker command-line client reads from its environment: a scan goes to its targets, not to
+	// the daemon the user's shell happens to point at
+	os.Setenv("DOCKER_HOST", "tcp://"+by.String())
+	os.Unsetenv("DOCKER_TLS_VERIFY")
+	os.Unsetenv("DOCKER_CERT_PATH")
+	for pass := 0; pass < 2; pass++ {
+		if pass == 1 {
+			// second pass: only DOCKER_HOST is set (moby's dialer refuses an http:// ALL_PROXY outright, which
+			// ends the docker probe before anything is sent)
+			for _, v := range []string{"HTTP_PROXY", "http_proxy", "HTTPS_PROXY", "https_proxy", "ALL_PROXY", "all_proxy"} {
+				os.Unsetenv(v)
 			}
-			c.Eval(1)
-			c.Nontrivial(1)
-			name := fmt.Sprintf("%s --proto %s 198.51.100.7:9200 with HTTP(S)_PROXY=%s", which, proto, by)
-			if err != nil || engine == nil {
-				c.Fail("appcli:proxy:refused:"+which+":"+proto, name+": command line refused: "+fmt.Sprint(err), nil)
+		}
+		for _, which := range []string{"elastic", "docker"} {
+			for _, proto := range []string{"http", "https"} {
+				if pass == 1 && which != "docker" {
+					continue
+				}
+				args := []string{"--proto", proto, "-t", "400ms", "--exit-delay", "20ms", "-p", "9200", "-w", "1", "198.51.100.7"}
+				lg := &appCapLogger{}
+				ctx, cancel := context.WithCancel(context.Background())
+				var engine scan.EngineResulter
+				var r *scan.Range
+				var err error
+				switch which {
+				case "elastic":
+					cm := newElasticCmd()
+					cm.cmd.SetOut(io.Discard)
+					cm.cmd.SetErr(io.Discard)
+					if err = cm.cmd.ParseFlags(args); err == nil {
+						if err = cm.opts.parseRawOptions(); err == nil {
+							if r, err = cm.opts.parseScanRange(cm.cmd.Flags().Args()); err == nil {
+								engine = cm.opts.newElasticScanEngine(ctx)
+							}
+						}
+					}
+				case "docker":
+					cm := newDockerCmd()
+					cm.cmd.SetOut(io.Discard)
+					cm.cmd.SetErr(io.Discard)
+					if err = cm.cmd.ParseFlags(args); err == nil {
+						if err = cm.opts.parseRawOptions(); err == nil {
+							if r, err = cm.opts.parseScanRange(cm.cmd.Flags().Args()); err == nil {
+								engine = cm.opts.newDockerScanEngine(ctx)
+							}
+						}
+					}
+				}
+				c.Eval(1)
+				c.Nontrivial(1)
+				name := fmt.Sprintf("%s --proto %s 198.51.100.7:9200 with HTTP(S)_PROXY, ALL_PROXY and DOCKER_HOST pointing at %s", which, proto, by)
+				if err != nil || engine == nil {
+					c.Fail("appcli:proxy:refused:"+which+":"+proto, name+": command line refused: "+fmt.Sprint(err), nil)
+					cancel()
+					continue
+				}
+				done := make(chan struct{})
+				go func() {
+					startScanEngine(ctx, engine, newEngineConfig(withLogger(lg), withScanRange(r), withExitDelay(20*time.Millisecond)))
+					close(done)
+				}()
+				select {
+				case <-done:
+				case <-time.After(15 * time.Second):
+					c.Fail("appcli:proxy:hang:"+which+":"+proto, name+": still running after 15 s", nil)
+				}
 				cancel()
-				continue
-			}
-			done := make(chan struct{})
-			go func() {
-				startScanEngine(ctx, engine, newEngineConfig(withLogger(lg), withScanRange(r), withExitDelay(20*time.Millisecond)))
-				close(done)
-			}()
-			select {
-			case <-done:
-			case <-time.After(15 * time.Second):
-				c.Fail("appcli:proxy:hang:"+which+":"+proto, name+": still running after 15 s", nil)
-			}
-			cancel()
-			mu.Lock()
-			n := hits
-			mu.Unlock()
-			lg.mu.Lock()
-			recs := append([]string{}, lg.results...)
-			lg.mu.Unlock()
-			if n > 0 || len(recs) > 0 {
-				c.Fail("appcli:proxy:"+which+":"+proto, fmt.Sprintf("%s: the probe of 198.51.100.7 opened %d connection(s) to the proxy host %s, an address outside the target set, and reported %v", name, n, by, recs), map[string]any{"part": c.Part, "args": args})
 				mu.Lock()
-				hits = 0
+				n := hits
 				mu.Unlock()
-				continue
+				lg.mu.Lock()
+				recs := append([]string{}, lg.results...)
+				lg.mu.Unlock()
+				if n > 0 || len(recs) > 0 {
+					c.Fail(fmt.Sprintf("appcli:proxy:%s:%s:pass%d", which, proto, pass), fmt.Sprintf("%s: the probe of 198.51.100.7 opened %d connection(s) to the proxy host %s, an address outside the target set, and reported %v", name, n, by, recs), map[string]any{"part": c.Part, "args": args})
+					mu.Lock()
+					hits = 0
+					mu.Unlock()
+					continue
+				}
+				c.Outcome(which + ":proxy-ignored")
 			}
-			c.Outcome(which + ":proxy-ignored")
 		}
 	}
+	os.Unsetenv("DOCKER_HOST")
 	for _, v := range []string{"HTTP_PROXY", "http_proxy", "HTTPS_PROXY", "https_proxy", "ALL_PROXY", "all_proxy"} {
 		os.Unsetenv(v)
 	}
